@@ -1,4 +1,6 @@
 """C18 — all views of measurement results tell the same story (DESIGN 5/C18)."""
+import collections, io, json
+import numpy as np
 from .. import env, coq, runner
 
 LEVEL = 'proof'
@@ -21,7 +23,8 @@ def _impl_int_to_digits(cirq, v, digit_count, base):
 
 def _impl_digits_to_int(cirq, ds, base):
     try:
-        return int(cirq.big_endian_digits_to_int(ds, base=base))
+        with np.errstate(all='ignore'):
+            return int(cirq.big_endian_digits_to_int(ds, base=base))
     except ValueError:
         return None
 
@@ -58,13 +61,23 @@ def gen_digit_cases(ctx, n):
 def run(ctx):
     cirq = env.import_cirq()
     ctx.rule = ('digits: random mixed-radix bases (0..70 digits, integers beyond 64 bits) with in-range, boundary and '
-                'out-of-range values, int and per-digit base forms, binary fast path; non-trivial = >=2 digits and value>1; '
+                'out-of-range values, int and per-digit base forms, binary fast path; non-trivial = >=2 digits and value>1. '
+                'views: generated ResultDicts (0..17 repetitions, 1..5 keys, 1..3 instances per key, 0..70 qubits, bool/uint8/int64 '
+                'binary and mixed-radix digits) observed through measurements, data frame, histogram (default, fold_base int/list, '
+                'custom folds), multi_measurement_histogram (key subsets in any order), +, repetitions, JSON packing; '
+                'non-trivial = >=2 repetitions, >=2 qubits, rows not all equal. sampler: fake samplers on the base class '
+                '(sync-only, async-only) and ZerosSampler through run/run_async/sample/run_sweep/run_batch(_async); '
                 'distinct by canonical input')
     ctx.assumptions += ['vf/checks/c18.py adapters calling Cirq and canonicalising outputs',
-                        'Python int <-> Coq Z literal printing']
+                        'Python int <-> Coq Z literal printing',
+                        'numpy, pandas and collections.Counter are modelled as list functions; the .npy header is parsed by numpy']
     ctx.set_obligations(coq.compile_props('C18'))
-    n = 400 if ctx.tier == 'quick' else 4000
-    digits_stream(ctx, cirq, n)
+    q = ctx.tier == 'quick'
+    digits_stream(ctx, cirq, 400 if q else 4000)
+    n = 160 if q else 1600
+    for shard in range(0, n, 160):
+        views_stream(ctx, cirq, min(160, n - shard), shard)
+    sampler_stream(ctx, cirq, 60 if q else 600)
 
 
 def digits_stream(ctx, cirq, n):
@@ -108,6 +121,14 @@ def digits_stream(ctx, cirq, n):
         out = _impl_digits_to_int(cirq, ds, list(bs))
         rows_d2i.append((ds, bs, out))
         ctx.count('digits_to_int', (ds, bs), len(bs) >= 2, sample=dict(digits=ds, base=bs, out=out))
+        # the same digits as a numpy integer array (what simulators and ResultDict hand to this function)
+        if out is not None and ds and all(0 <= d < 128 for d in ds):
+            dt = ctx.rng.choice(['uint8', 'int8', 'int64'])
+            nd = np.array(ds, dtype=dt)
+            out_np = _impl_digits_to_int(cirq, nd, list(bs))
+            ctx.count('digits_to_int:numpy', (ds, bs, dt), len(bs) >= 2 and out > 255)
+            if out_np != out:
+                numpy_digits_violation(ctx, cirq, nd, bs)
         if ctx.rng.random() < 0.2:   # length mismatch must raise
             out2 = _impl_digits_to_int(cirq, ds + [0], list(bs))
             rows_d2i.append((ds + [0], bs, out2))
@@ -178,6 +199,531 @@ def spec_search_digits(ctx, cirq, name, row):
                           dict(kind='bits', bits=bits, val=sv, bit_count=nb))
 
 
+def numpy_digits_violation(ctx, cirq, digits, bases, via='direct call'):
+    """big_endian_digits_to_int on an array of numpy integers: minimise to the shortest failing prefix-free suffix."""
+    digits, bases = np.asarray(digits), list(bases)
+    while len(digits) > 1:       # drop leading digits while the tail still fails
+        d2, b2 = digits[1:], bases[1:]
+        if _impl_digits_to_int(cirq, d2, b2) == spec_int([int(x) for x in d2], b2):
+            break
+        digits, bases = d2, b2
+    got = _impl_digits_to_int(cirq, digits, bases)
+    exp = spec_int([int(x) for x in digits], bases)
+    ctx.violation('digits:digits_to_int:numpy-digits',
+                  f'big_endian_digits_to_int(np.array({digits.tolist()}, dtype={digits.dtype}), base={bases}) = {got!r}, positional notation gives {exp} (reached via {via})',
+                  dict(kind='numpy_digits', digits=digits.tolist(), dtype=str(digits.dtype), bases=bases, expected=exp))
+
+
+# ------------------------------------------------------------------ result views
+KEY_NAMES = ['a', 'b', 'm0', 'q(0, 1)', 'z', 'key with space', 'k5', 'out']
+FOLDS = {   # named fold functions usable on both sides (values are tuples of ints)
+    'sum': lambda row: (int(sum(int(x) for x in row)),),
+    'id': lambda row: tuple(int(x) for x in row),
+    'rev': lambda row: tuple(int(x) for x in reversed(row)),
+    'par': lambda row: (int(sum(int(x) for x in row)) % 2,),
+}
+MFOLDS = {
+    'cat': lambda rows: tuple(int(x) for row in rows for x in row),
+    'sums': lambda rows: tuple(int(sum(int(x) for x in row)) for row in rows),
+}
+COQ_FOLDS = """
+Definition zsum (row : list Z) : Z := fold_right Z.add 0 row.
+Definition fold_named (n : nat) (row : list Z) : option (list Z) :=
+  match n with
+  | 0%nat => Some [zsum row]
+  | 1%nat => Some row
+  | 2%nat => Some (rev row)
+  | _ => Some [zsum row mod 2]
+  end.
+Definition mfold_named (n : nat) (rows : list (list Z)) : option (list Z) :=
+  match n with
+  | 0%nat => Some (concat rows)
+  | 1%nat => Some (map zsum rows)
+  | _ => fold_tuple_bits rows
+  end.
+Definition lc_eqb := counter_eqb zl_eqb.
+Definition zc_eqb := counter_eqb Z.eqb.
+Definition rec_eqb (a b : rec) : bool :=
+  Nat.eqb (r_inst a) (r_inst b) && Nat.eqb (r_nq a) (r_nq b) && list_eqb zll_eqb (r_data a) (r_data b).
+Definition res_eqb := list_eqb (pair_eqb Z.eqb rec_eqb).
+Definition meas_eqb := list_eqb (pair_eqb Z.eqb (pair_eqb Nat.eqb zll_eqb)).
+Definition df_eqb := list_eqb (pair_eqb Z.eqb zl_eqb).
+"""
+FOLD_IDS = {'sum': 0, 'id': 1, 'rev': 2, 'par': 3}
+MFOLD_IDS = {'cat': 0, 'sums': 1, 'default': 2}
+
+
+def gen_record(rng, reps, force_binary=False):
+    inst = rng.choice([1, 1, 1, 1, 2, 3])
+    nq = rng.choice([0, 1, 1, 2, 2, 3, 3, 4, 5, 8, 9, 62, 63, 64, 65, 70])
+    binary = force_binary or nq > 12 or rng.random() < 0.55
+    if binary:
+        bases = [2] * nq
+        dtype = rng.choice(['bool', 'uint8', 'int64'])
+    else:
+        bases = [rng.choice([2, 3, 3, 4, 5, 7]) for _ in range(nq)]
+        dtype = rng.choice(['uint8', 'int64'])
+    skew = rng.choice([0.15, 0.5, 0.85])
+    arr = np.zeros((reps, inst, nq), dtype=dtype)
+    for r in range(reps):
+        for j in range(inst):
+            for i in range(nq):
+                arr[r, j, i] = (rng.random() < skew) if bases[i] == 2 else rng.randrange(bases[i])
+    if reps >= 2 and rng.random() < 0.3:     # duplicate rows make histograms non-trivial
+        arr[rng.randrange(reps)] = arr[rng.randrange(reps)]
+    return dict(inst=inst, nq=nq, bases=bases, binary=binary, arr=arr)
+
+
+def gen_result(rng, reps=None, shapes=None):
+    if reps is None:
+        reps = rng.choice([0, 1, 2, 3, 3, 5, 9, 17])
+    nkeys = rng.choice([0, 1, 1, 2, 2, 3, 5])
+    names = rng.sample(KEY_NAMES, nkeys)
+    recs = collections.OrderedDict()
+    single = rng.random() < 0.7       # most results have only once-measured keys so that the flat views exist
+    for nm in names:
+        rec = gen_record(rng, reps)
+        if single and rec['inst'] != 1:
+            rec['arr'] = rec['arr'][:, :1, :].copy()
+            rec['inst'] = 1
+        recs[nm] = rec
+    return reps, recs
+
+
+def rec_lit(arr):
+    reps, inst, nq = arr.shape
+    rows = '[' + '; '.join('[' + '; '.join(coq.zlist(int(x) for x in arr[r, j]) for j in range(inst)) + ']' for r in range(reps)) + ']'
+    return f'(mkRec {inst} {nq} {rows})'
+
+
+def res_lit(recs, kid):
+    return '[' + '; '.join(f'({kid[k]}, {rec_lit(a)})' for k, a in recs.items()) + ']'
+
+
+def counter_lit(c, val):
+    return '[' + '; '.join(f'({val(k)}, {int(v)}%nat)' for k, v in c.items()) + ']'
+
+
+def zll(rows):
+    return '[' + '; '.join(coq.zlist(int(x) for x in row) for row in rows) + ']'
+
+
+def _try(f):
+    try:
+        return f()
+    except (ValueError, KeyError):
+        return None
+
+
+def spec_measurements(recs):
+    """Specification written directly from the documentation: the single instance of every key, or an error."""
+    if any(a.shape[1] != 1 for a in recs.values()):
+        return None
+    return {k: [[int(x) for x in a[r, 0]] for r in range(a.shape[0])] for k, a in recs.items()}
+
+
+def spec_int(row, bases=None):
+    v = 0
+    for i, d in enumerate(row):
+        v = v * (2 if bases is None else bases[i]) + int(d)
+    return v
+
+
+def npy_payload(hexstr):
+    """Data section of a .npy file given as hex text (header parsed by numpy, trusted)."""
+    buf = io.BytesIO(bytes.fromhex(hexstr))
+    ver = np.lib.format.read_magic(buf)
+    (np.lib.format.read_array_header_1_0 if ver == (1, 0) else np.lib.format.read_array_header_2_0)(buf)
+    return buf.read()
+
+
+def views_stream(ctx, cirq, n, shard=0):
+    rng = ctx.rng
+    R = dict(meas=[], df=[], hist=[], histf=[], multi=[], add=[], json=[])
+    kid = {k: i for i, k in enumerate(KEY_NAMES)}
+    kid['missing'] = 99
+    for case in range(n):
+        reps, spec = gen_result(rng)
+        recs = collections.OrderedDict((k, v['arr']) for k, v in spec.items())
+        # a fresh object per view: a failed access to .measurements leaves a partially filled cache behind
+        mk = lambda: cirq.ResultDict(params=cirq.ParamResolver({'p': 0.25}), records={k: a.copy() for k, a in recs.items()})
+        res = mk()
+        lit = res_lit(recs, kid)
+        nontriv = reps >= 2 and any(a.shape[2] >= 2 and len({tuple(map(int, a[r].ravel())) for r in range(reps)}) > 1 for a in recs.values())
+        desc = {k: dict(shape=list(a.shape), dtype=str(a.dtype), digits=a.tolist() if a.size <= 24 else '...') for k, a in recs.items()}
+        canon_in = [(k, str(a.dtype), a.tolist()) for k, a in recs.items()]
+        rp = dict(kind='views', records={k: dict(dtype=str(a.dtype), shape=list(a.shape), digits=a.tolist()) for k, a in recs.items()})
+        # -- repetitions + measurements
+        meas = _try(lambda: {k: v.tolist() for k, v in mk().measurements.items()})
+        m_out = None if meas is None else [(kid[k], (recs[k].shape[2], [[int(x) for x in row] for row in rows])) for k, rows in meas.items()]
+        R['meas'].append((lit, int(res.repetitions), m_out))
+        ctx.count('views:measurements', canon_in, nontriv, sample=dict(records=desc, measurements=meas if meas is None or sum(map(len, meas.values())) < 20 else '...'))
+        sm = spec_measurements(recs)
+        if meas != sm or res.repetitions != (next(iter(recs.values())).shape[0] if recs else 0):
+            ctx.violation('views:measurements', f'measurements/repetitions of records {desc} = {meas}/{res.repetitions}, expected {sm}', rp)
+        # -- data frame
+        df = _try(lambda: mk().data)
+        d_out = None if df is None else [(kid[k], [int(x) for x in df[k]]) for k in df.columns]
+        R['df'].append((lit, d_out))
+        ctx.count('views:dataframe', canon_in, nontriv and sm is not None)
+        if sm is not None:
+            exp = [(kid[k], [sum(int(d) << (len(row) - 1 - i) for i, d in enumerate(row)) for row in rows]) for k, rows in sm.items()]
+            if d_out != exp or (df is not None and len(df) != (reps if recs else 0)):
+                ctx.violation('views:dataframe', f'data frame of {desc} has columns {d_out}, big-endian integers are {exp}', rp)
+        elif df is not None:
+            ctx.violation('views:dataframe', f'data frame exists although a key is repeated: {desc}', rp)
+        # -- histograms per key
+        for k in list(recs)[:3] + (['missing'] if rng.random() < 0.1 else []):
+            sp = spec.get(k)
+            modes = ['none', 'func']
+            if sp is not None:
+                modes += ['int', 'list', 'badlist'] if sp['nq'] <= 70 else []
+            mode = rng.choice(modes)
+            extra = None
+            if mode == 'none':
+                h = _try(lambda: mk().histogram(key=k))
+                R['hist'].append((lit, kid[k], 'BaseNone', h))
+                exp = None if (sm is None or k not in sm) else collections.Counter(spec_int([1 if d else 0 for d in row]) for row in sm[k])
+                binary = sp is None or sp['binary']
+            elif mode in ('int', 'list', 'badlist'):
+                if mode == 'int':
+                    b = max(sp['bases'] + [2]) + rng.choice([0, 0, 1])
+                    fb, fbl, bl = b, f'(BaseInt {b})', [b] * sp['nq']
+                elif mode == 'list':
+                    bl = [x + rng.choice([0, 0, 0, 2]) for x in sp['bases']]
+                    fb, fbl = list(bl), f'(BaseList {coq.zlist(bl)})'
+                else:
+                    bl = sp['bases'] + [2]
+                    fb, fbl = list(bl), f'(BaseList {coq.zlist(bl)})'
+                h = _try(lambda: mk().histogram(key=k, fold_base=fb))
+                R['hist'].append((lit, kid[k], fbl, h))
+                exp = None if (sm is None or mode == 'badlist') else collections.Counter(spec_int(row, bl) for row in sm[k])
+                binary, extra = True, fb
+            else:
+                fname = rng.choice(sorted(FOLDS))
+                h = _try(lambda: mk().histogram(key=k, fold_func=FOLDS[fname]))
+                R['histf'].append((lit, kid[k], FOLD_IDS[fname], h))
+                exp = None if (sm is None or k not in sm) else collections.Counter(FOLDS[fname](row) for row in sm[k])
+                binary, extra = True, fname
+            ctx.count('views:histogram', [canon_in, k, mode, extra], nontriv and h is not None,
+                      sample=dict(records=desc, key=k, mode=mode, histogram=None if h is None else {str(a): b for a, b in h.items()}))
+            if binary and (None if h is None else dict(h)) != (None if exp is None else dict(exp)):
+                bad_row = None
+                if mode in ('int', 'list') and sm is not None:      # attribute to the call site: digits_to_int on numpy digits
+                    for r_ in range(reps):
+                        if _impl_digits_to_int(cirq, recs[k][r_, 0], bl) != spec_int(sm[k][r_], bl):
+                            bad_row = r_
+                if bad_row is not None:
+                    numpy_digits_violation(ctx, cirq, recs[k][bad_row, 0], bl, via=f'histogram(key={k!r}, fold_base=...) beyond int64')
+                else:
+                    ctx.violation('views:histogram', f'histogram(key={k!r}, mode={mode}) of {desc} = {h}, counting rows gives {exp}', dict(rp, key=k, mode=mode))
+        # -- multi-key histograms: subsets in any order (with an occasional repeated or unknown key)
+        for _ in range(2):
+            pool = list(recs)
+            ks = [rng.choice(pool) for _ in range(rng.choice([0, 1, 2, 2, 3]))] if pool else []
+            if pool and rng.random() < 0.5:
+                ks = rng.sample(pool, rng.randint(0, len(pool)))
+            if rng.random() < 0.07:
+                ks.append('missing')
+            mname = rng.choice(['default', 'default', 'cat', 'sums'])
+            if mname == 'default':
+                h = _try(lambda: mk().multi_measurement_histogram(keys=ks))
+            else:
+                h = _try(lambda: mk().multi_measurement_histogram(keys=ks, fold_func=MFOLDS[mname]))
+            R['multi'].append((lit, [kid[k] for k in ks], MFOLD_IDS[mname], h))
+            ctx.count('views:multi_histogram', [canon_in, ks, mname], nontriv and h is not None and len(ks) >= 2,
+                      sample=dict(records=desc, keys=ks, fold=mname, histogram=None if h is None else {str(a): b for a, b in h.items()}))
+            f = None
+            if not ks:            # no key is looked at: one empty sample per repetition, whatever the records are
+                f = MFOLDS.get(mname, lambda rows: ())
+                exp = collections.Counter(f(()) for r in range(reps if recs else 0))
+            elif sm is None or 'missing' in ks:
+                exp = None
+            else:
+                f = MFOLDS.get(mname, lambda rows: tuple(spec_int([1 if d else 0 for d in row]) for row in rows))
+                exp = collections.Counter(f(tuple(sm[k][r] for k in ks)) for r in range(reps if recs else 0))
+            if (None if h is None else dict(h)) != (None if exp is None else dict(exp)):
+                ctx.violation('views:multi_histogram', f'multi_measurement_histogram(keys={ks}, fold={mname}) of {desc} = {h}, counting rows in key order gives {exp}',
+                              dict(rp, keys=ks, fold=mname))
+        # -- concatenation
+        reps2 = rng.choice([0, 1, 2, 4])
+        recs2 = collections.OrderedDict()
+        order = list(recs)
+        if rng.random() < 0.4:
+            rng.shuffle(order)
+        bad = rng.random() < 0.2
+        for k in order:
+            a = recs[k]
+            b = np.zeros((reps2,) + a.shape[1:], dtype=a.dtype)
+            for idx in np.ndindex(b.shape):
+                b[idx] = rng.randrange(spec[k]['bases'][idx[2]])
+            recs2[k] = b
+        if bad and recs2:
+            k = rng.choice(list(recs2))
+            how = rng.choice(['drop', 'inst', 'nq', 'extra'])
+            if how == 'drop':
+                del recs2[k]
+            elif how == 'inst':
+                recs2[k] = np.zeros((reps2, recs2[k].shape[1] + 1, recs2[k].shape[2]), dtype=recs2[k].dtype)
+            elif how == 'nq':
+                recs2[k] = np.zeros((reps2, recs2[k].shape[1], recs2[k].shape[2] + 1), dtype=recs2[k].dtype)
+            else:
+                recs2['missing'] = np.zeros((reps2, 1, 1), dtype=bool)
+        res2 = cirq.ResultDict(params=cirq.ParamResolver({'p': 0.25}), records={k: a.copy() for k, a in recs2.items()})
+        tot = _try(lambda: res + res2)
+        t_out = None if tot is None else collections.OrderedDict((k, np.asarray(v)) for k, v in tot.records.items())
+        R['add'].append((lit, res_lit(recs2, kid), None if t_out is None else res_lit(t_out, kid)))
+        ctx.count('views:add', [canon_in, [(k, a.tolist()) for k, a in recs2.items()]], nontriv and tot is not None and reps2 > 0)
+        same = set(recs) == set(recs2) and all(recs[k].shape[1:] == recs2[k].shape[1:] for k in recs)
+        if same != (tot is not None):
+            ctx.violation('views:add', f'r1 + r2 {"raised" if tot is None else "succeeded"} for shapes {desc} + { {k: list(a.shape) for k, a in recs2.items()} }',
+                          dict(rp, other={k: dict(dtype=str(a.dtype), digits=a.tolist(), shape=list(a.shape)) for k, a in recs2.items()}))
+        elif tot is not None:
+            ok = all(np.array_equal(t_out[k], np.concatenate([recs[k], recs2[k]], axis=0)) for k in recs) and tot.repetitions == (reps + reps2 if recs else 0)
+            # every view of the sum is the concatenation / sum of the views
+            if ok and sm is not None and spec_measurements(recs2) is not None:
+                for k in recs:
+                    ok = ok and list(tot.data[k]) == list(res.data[k]) + list(res2.data[k])
+                    ok = ok and tot.histogram(key=k, fold_func=FOLDS['id']) == res.histogram(key=k, fold_func=FOLDS['id']) + res2.histogram(key=k, fold_func=FOLDS['id'])
+            if not ok:
+                ctx.violation('views:add', f'views of r1 + r2 are not the concatenation of the views: {desc}',
+                              dict(rp, other={k: dict(dtype=str(a.dtype), digits=a.tolist(), shape=list(a.shape)) for k, a in recs2.items()}))
+        # -- JSON storage
+        txt = cirq.to_json(res)
+        back = cirq.read_json(json_text=txt)
+        jd = json.loads(txt)['records']
+        okj = back == res and list(back.records) == list(recs) and all(
+            back.records[k].shape == recs[k].shape and back.records[k].dtype == recs[k].dtype for k in recs)
+        if not okj:
+            ctx.violation('views:json', f'read_json(to_json(r)) != r for {desc}', rp)
+        for k, a in recs.items():
+            e = jd[k]
+            item = a.dtype.itemsize
+            if e['binary']:
+                nibbles = [int(c, 16) for c in e['packed_digits']]
+            else:
+                nibbles = [int(c, 16) for c in npy_payload(e['packed_digits']).hex()]
+            un = cirq.study.result._unpack_digits(**e)
+            R['json'].append((item, [int(x) for x in a.ravel()], nibbles, bool(e['binary']), list(a.shape), [int(x) for x in np.asarray(un).ravel()]))
+            ctx.count('views:json', [k, str(a.dtype), a.tolist()], a.size >= 2 and len(set(a.ravel().tolist())) > 1,
+                      sample=dict(digits=a.tolist() if a.size <= 24 else '...', dtype=str(a.dtype), binary=e['binary'], packed=e['packed_digits'][-32:]))
+    # ---- evaluate the model on the same cases
+    O, ZL = coq.opt, coq.zlist
+    hdr = ('From Coq Require Import ZArith List Bool.\nFrom VF Require Import Base.Digits Base.Harness Codec.ResultViews.\n'
+           'Import ListNotations.\nOpen Scope Z_scope.\n' + COQ_FOLDS)
+    m_lit = lambda m: '[' + '; '.join(f'({k}, ({nq}%nat, {zll(rows)}))' for k, (nq, rows) in m) + ']'
+    d_lit = lambda d: '[' + '; '.join(f'({k}, {ZL(col)})' for k, col in d) + ']'
+    tl = lambda t: ZL(t)
+    text = hdr
+    text += 'Definition c_meas : list (result * nat * option (list (Z * (nat * list (list Z))))) := [\n' + ';\n'.join(
+        f'({l}, {r}%nat, {O(m, m_lit)})' for l, r, m in R['meas']) + '].\n'
+    text += ('Eval vm_compute in failing (fun c => match c with (r, n, m) => Nat.eqb (repetitions r) n && '
+             'opt_eqb meas_eqb (measurements r) m end) c_meas.\n')
+    text += 'Definition c_df : list (result * option (list (Z * list Z))) := [\n' + ';\n'.join(
+        f'({l}, {O(d, d_lit)})' for l, d in R['df']) + '].\n'
+    text += 'Eval vm_compute in failing (fun c => opt_eqb df_eqb (dataframe (fst c)) (snd c)) c_df.\n'
+    text += 'Definition c_hist : list (result * Z * fold_base * option (list (Z * nat))) := [\n' + ';\n'.join(
+        f'({l}, {k}, {fb}, {O(h, lambda c: counter_lit(c, coq.zlit))})' for l, k, fb, h in R['hist']) + '].\n'
+    text += 'Eval vm_compute in failing (fun c => match c with (r, k, fb, h) => opt_eqb zc_eqb (histogram r k fb) h end) c_hist.\n'
+    text += 'Definition c_histf : list (result * Z * nat * option (list (list Z * nat))) := [\n' + ';\n'.join(
+        f'({l}, {k}, {f}%nat, {O(h, lambda c: counter_lit(c, tl))})' for l, k, f, h in R['histf']) + '].\n'
+    text += ('Eval vm_compute in failing (fun c => match c with (r, k, f, h) => '
+             'opt_eqb lc_eqb (histogram_fold zl_eqb r k (fold_named f)) h end) c_histf.\n')
+    text += 'Definition c_multi : list (result * list Z * nat * option (list (list Z * nat))) := [\n' + ';\n'.join(
+        f'({l}, {ZL(ks)}, {f}%nat, {O(h, lambda c: counter_lit(c, tl))})' for l, ks, f, h in R['multi']) + '].\n'
+    text += ('Eval vm_compute in failing (fun c => match c with (r, ks, f, h) => '
+             'opt_eqb lc_eqb (multi_hist zl_eqb r ks (mfold_named f)) h end) c_multi.\n')
+    text += 'Definition c_add : list (result * result * option result) := [\n' + ';\n'.join(
+        f'({a}, {b}, {O(t)})' for a, b, t in R['add']) + '].\n'
+    text += 'Eval vm_compute in failing (fun c => match c with (a, b, t) => opt_eqb res_eqb (result_add a b) t end) c_add.\n'
+    text += 'Definition c_json : list (nat * list Z * list Z * bool * nat * list Z) := [\n' + ';\n'.join(
+        f'({item}%nat, {ZL(flat)}, {ZL(nib)}, {"true" if b else "false"}, {int(np.prod(shape))}%nat, {ZL(un)})'
+        for item, flat, nib, b, shape, un in R['json']) + '].\n'
+    text += ('Eval vm_compute in failing (fun c => match c with (item, flat, nib, b, cnt, un) => '
+             'pair_eqb zl_eqb Bool.eqb (pack_digits item flat) (nib, b) && zl_eqb (unpack_digits item cnt (nib, b)) un end) c_json.\n')
+    vals = coq.parse_evals(coq.coq_eval(f'c18_views_{ctx.seed}_{shard}', text))
+    names = ['meas', 'df', 'hist', 'histf', 'multi', 'add', 'json']
+    assert len(vals) == len(names), vals
+    for name, val in zip(names, vals):
+        for idx in coq.parse_nat_list(val):
+            ctx.mark_broken(f'correspondence:views:{name}', f'model and implementation differ on {str(R[name][idx])[:1500]}')
+
+
+# ------------------------------------------------------------------ sampler defaults
+def sampler_stream(ctx, cirq, n):
+    import duet, sympy
+    rng = ctx.rng
+    q0, q1, q2 = cirq.LineQubit.range(3)
+    log = []
+
+    def fake_results(program, params, repetitions):
+        """Deterministic, distinguishable results: the measured bits encode (program tag, resolver index, repetition)."""
+        out = []
+        tag = int(program.tags[0]) if program.tags else 0
+        for i, pr in enumerate(cirq.to_resolvers(params)):
+            recs = {}
+            for k, (inst, shape) in cirq.Sampler._get_measurement_shapes(program).items():
+                a = np.zeros((repetitions, inst, len(shape)), dtype=np.uint8)
+                for r in range(repetitions):
+                    for j in range(inst):
+                        for b in range(len(shape)):
+                            a[r, j, b] = ((tag * 7 + i * 3 + r * 5 + j + len(k)) >> b) & 1
+                recs[k] = a
+            out.append(cirq.ResultDict(params=pr, records=recs))
+        return out
+
+    class SyncFake(cirq.Sampler):
+        def run_sweep(self, program, params, repetitions=1):
+            log.append(('sweep', id(program), repetitions))
+            return fake_results(program, params, repetitions)
+
+    class AsyncFake(cirq.Sampler):
+        async def run_sweep_async(self, program, params, repetitions=1):
+            log.append(('sweep_async', id(program), repetitions))
+            return fake_results(program, params, repetitions)
+
+    t = sympy.Symbol('t')
+    u = sympy.Symbol('u')
+
+    def gen_circuit(tag):
+        ops = [cirq.X(q0) ** t, cirq.measure(q0, q1, key='ab')]
+        if rng.random() < 0.5:
+            ops.append(cirq.measure(q2, key='c'))
+        if rng.random() < 0.3:
+            ops.append(cirq.Y(q1) ** u)
+        return cirq.Circuit(ops, tags=[tag]) if hasattr(cirq.Circuit(), 'tags') else cirq.Circuit(ops)
+
+    def gen_sweep():
+        r = rng.random()
+        if r < 0.3:
+            return cirq.Points('t', [rng.choice([0, 0.5, 1]) for _ in range(rng.randint(1, 3))])
+        if r < 0.5:
+            return cirq.Linspace('t', 0, 1, rng.randint(1, 3))
+        if r < 0.7:
+            return cirq.Product(cirq.Points('t', [0, 1]), cirq.Points('u', [0.25, 0.75][:rng.randint(1, 2)]))
+        if r < 0.85:
+            return cirq.Zip(cirq.Points('t', [0, 1, 0.5]), cirq.Points('u', [1, 0.5]))
+        return {'t': rng.choice([0.0, 1.0])}
+
+    def tags(results):
+        return [[(tuple(sorted((str(k), float(v)) for k, v in r.params.param_dict.items())), {k: a.tolist() for k, a in r.records.items()}) for r in rs] for rs in results]
+
+    rows_batch = []
+    for case in range(n):
+        fake = rng.choice([SyncFake, AsyncFake])()
+        circ = gen_circuit(case % 9 + 1)
+        reps = rng.choice([0, 1, 2, 3, 5])
+        # ---- run == run_sweep[0], sync and async
+        pr = cirq.ParamResolver({'t': rng.choice([0, 0.5, 1]), 'u': 0.25})
+        direct = fake_results(circ, pr, reps)[0]
+        del log[:]
+        got = [fake.run(circ, pr, reps), duet.run(fake.run_async, circ, pr, reps)]
+        ok = all(g == direct for g in got) and len(log) == 2 and all(l[2] == reps for l in log)
+        ctx.count('sampler:run', [type(fake).__name__, str(circ), reps, str(pr)], reps >= 1, sample=dict(sampler=type(fake).__name__, repetitions=reps, records={k: v.tolist() for k, v in direct.records.items()}))
+        if not ok:
+            ctx.violation('sampler:run', f'{type(fake).__name__}.run/run_async(reps={reps}) is not run_sweep(...)[0] (calls: {log})', dict(kind='sampler', what='run'))
+        # ---- run_sweep <-> run_sweep_async alternatives agree
+        sw = gen_sweep()
+        a = fake.run_sweep(circ, sw, reps)
+        b = duet.run(fake.run_sweep_async, circ, sw, reps)
+        exp = fake_results(circ, sw, reps)
+        if not (list(a) == exp and list(b) == exp):
+            ctx.violation('sampler:run_sweep', f'{type(fake).__name__}.run_sweep / run_sweep_async disagree with the implemented method', dict(kind='sampler', what='run_sweep'))
+        ctx.count('sampler:run_sweep', [type(fake).__name__, str(circ), repr(sw), reps], len(exp) >= 2)
+        # ---- sample: rows sweep-major, then resolver, then repetition; parameter columns sorted; index = repetition
+        nsw = rng.choice([1, 1, 2, 3])
+        kind = rng.random()
+        if kind < 0.6:
+            sweeps = [cirq.Points('t', [rng.choice([0, 0.5, 1]) for _ in range(rng.randint(1, 3))]) for _ in range(nsw)]
+        elif kind < 0.8:
+            sweeps = [cirq.Zip(cirq.Points('u', [0.5, 0.25, 1][:rng.randint(1, 3)]), cirq.Points('t', [0, 1, 0.5])) for _ in range(nsw)]
+        else:
+            sweeps = [cirq.Product(cirq.Points('u', [0.5, 0.25]), cirq.Points('t', [0, 1][:rng.randint(1, 2)])) for _ in range(nsw)]
+        arg = sweeps if len(sweeps) > 1 or rng.random() < 0.5 else sweeps[0]
+        srep = rng.choice([1, 2, 3])
+        df = fake.sample(circ, repetitions=srep, params=arg)
+        keys = sorted(sweeps[0].keys)
+        exp_rows, exp_index = [], []
+        for s in sweeps:
+            for pr_, res in zip(s, fake_results(circ, s, srep)):
+                for r in range(srep):
+                    exp_rows.append([float(pr_.value_of(k)) for k in keys] + [int(res.data[c][r]) for c in res.data.columns])
+                    exp_index.append(r)
+        cols = keys + list(fake_results(circ, sweeps[0], srep)[0].data.columns)
+        got_rows = [[float(x) if c in keys else int(x) for c, x in zip(df.columns, row)] for row in df.itertuples(index=False)]
+        ok = list(df.columns) == cols and got_rows == exp_rows and list(df.index) == exp_index
+        ctx.count('sampler:sample', [type(fake).__name__, str(circ), repr(arg), srep], len(exp_rows) >= 4 and len({tuple(r) for r in exp_rows}) > 1,
+                  sample=dict(sampler=type(fake).__name__, params=repr(arg), repetitions=srep, columns=list(map(str, df.columns)), rows=got_rows[:6]))
+        if not ok:
+            ctx.violation('sampler:sample', f'sample(params={arg!r}, repetitions={srep}) rows {got_rows} (index {list(df.index)}), expected sweep-major {exp_rows}',
+                          dict(kind='sampler', what='sample'))
+        # ---- run_batch: order, shapes, broadcasting, errors
+        npg = rng.choice([0, 1, 2, 3, 4])
+        progs = [gen_circuit(10 + i) for i in range(npg)]
+        pmode = rng.choice(['none', 'list', 'list', 'short', 'long'])
+        rmode = rng.choice(['int', 'int', 'list', 'short', 'long'])
+        plist = None if pmode == 'none' else [gen_sweep() for _ in range(max(0, npg + {'list': 0, 'short': -1, 'long': 1}[pmode]))]
+        if pmode == 'short' and npg == 0:
+            plist, pmode = [], 'list'
+        rl = rng.choice([1, 2, 3]) if rmode == 'int' else [rng.choice([0, 1, 2, 3]) for _ in range(max(0, npg + {'list': 0, 'short': -1, 'long': 1}[rmode]))]
+        if rmode == 'short' and npg == 0:
+            rl, rmode = [], 'list'
+        for entry, runner_ in (('run_batch', lambda: fake.run_batch(progs, plist, rl)),
+                               ('run_batch_async', lambda: duet.run(fake.run_batch_async, progs, plist, rl))):
+            try:
+                got = runner_()
+            except ValueError:
+                got = None
+            bad = pmode in ('short', 'long') or rmode in ('short', 'long')
+            if bad:
+                exp = None
+            else:
+                pp = [None] * npg if plist is None else plist
+                rr = [rl] * npg if isinstance(rl, int) else rl
+                exp = [fake_results(c, p, r) for c, p, r in zip(progs, pp, rr)]
+            ok = (got is None) == (exp is None) and (got is None or (len(got) == npg and tags(got) == tags(exp)))
+            ctx.count('sampler:' + entry, [type(fake).__name__, [str(c) for c in progs], repr(plist), repr(rl)], npg >= 2 and exp is not None,
+                      sample=dict(sampler=type(fake).__name__, programs=npg, params_mode=pmode, repetitions=rl, shape=None if got is None else [len(g) for g in got]))
+            if not ok:
+                ctx.violation('sampler:run_batch', f'{entry}({npg} programs, params {pmode}, repetitions {rl}) returned {None if got is None else tags(got)}, expected {None if exp is None else tags(exp)}',
+                              dict(kind='sampler', what=entry))
+        # the list-function model of _normalize_batch_args / run_batch over sweep identifiers
+        plens = None if plist is None else [len(list(cirq.to_resolvers(p))) for p in plist]
+        shape = None
+        try:
+            shape = [[(i, j, r.repetitions) for j, r in enumerate(rs)] for i, rs in enumerate(fake.run_batch(progs, plist, rl))]
+        except ValueError:
+            pass
+        rows_batch.append((npg, plens, rl, shape))
+        # ---- ZerosSampler: shapes of every entry point
+        zs = cirq.ZerosSampler()
+        zc = cirq.Circuit(cirq.measure(q0, q1, key='ab'), cirq.measure(q2, key='c'), cirq.measure(q0, q1, key='ab')) if rng.random() < 0.5 else circ
+        zr = zs.run_sweep(zc, sw, reps)
+        shapes = cirq.Sampler._get_measurement_shapes(zc)
+        ok = len(zr) == len(list(cirq.to_resolvers(sw))) and all(
+            set(r.records) == set(shapes) and all(r.records[k].shape == (reps, shapes[k][0], len(shapes[k][1])) and not r.records[k].any() for k in shapes)
+            and r.params == p_ for r, p_ in zip(zr, cirq.to_resolvers(sw)))
+        ok = ok and zs.run(zc, cirq.ParamResolver({'t': 0, 'u': 0}), reps) == zs.run_sweep(zc, cirq.ParamResolver({'t': 0, 'u': 0}), reps)[0]
+        ctx.count('sampler:zeros', [str(zc), repr(sw), reps], reps >= 1)
+        if not ok:
+            ctx.violation('sampler:zeros', f'ZerosSampler.run_sweep(reps={reps}) has wrong shapes/parameters', dict(kind='sampler', what='zeros'))
+    # model: run_batch over an abstract run_sweep that returns (program index, resolver index, repetitions)
+    text = ('From Coq Require Import ZArith List Bool.\nFrom VF Require Import Base.Harness Codec.ResultViews.\nImport ListNotations.\nOpen Scope nat_scope.\n'
+            'Definition rs (c : nat) (p : nat) (r : nat) : list (nat * nat * nat) := map (fun j => (c, j, r)) (seq 0 p).\n'
+            'Definition t_eqb (a b : nat * nat * nat) := Nat.eqb (fst (fst a)) (fst (fst b)) && Nat.eqb (snd (fst a)) (snd (fst b)) && Nat.eqb (snd a) (snd b).\n')
+    nl = lambda xs: '[' + '; '.join(str(int(x)) for x in xs) + ']'
+    def shape_lit(sh):
+        return '[' + '; '.join('[' + '; '.join(f'({i}, {j}, {r})' for i, j, r in row) + ']' for row in sh) + ']'
+    text += 'Definition c_batch : list (nat * option (list nat) * (nat + list nat) * option (list (list (nat * nat * nat)))) := [\n' + ';\n'.join(
+        f'({npg}, {coq.opt(pl, nl)}, {("inl " + str(rl)) if isinstance(rl, int) else ("inr " + nl(rl))}, {coq.opt(sh, shape_lit)})'
+        for npg, pl, rl, sh in rows_batch) + '].\n'
+    text += ('Eval vm_compute in failing (fun c => match c with (n, pl, rl, sh) => '
+             'opt_eqb (list_eqb (list_eqb t_eqb)) (run_batch rs 1 (seq 0 n) pl rl) sh end) c_batch.\n')
+    vals = coq.parse_evals(coq.coq_eval(f'c18_sampler_{ctx.seed}', text))
+    for idx in coq.parse_nat_list(vals[0]):
+        ctx.mark_broken('correspondence:sampler:run_batch', f'model and implementation differ on {rows_batch[idx]}')
+
+
 def replay(ctx, data):
     cirq = env.import_cirq()
     k = data.get('kind')
@@ -189,6 +735,10 @@ def replay(ctx, data):
         out = _impl_digits_to_int(cirq, data['digits'], data['bases'])
         print('digits_to_int ->', out)
         return out == data['expected']
+    if k == 'numpy_digits':
+        got = _impl_digits_to_int(cirq, np.array(data['digits'], dtype=data['dtype']), data['bases'])
+        print('digits_to_int ->', got, 'expected', data['expected'])
+        return got == data['expected']
     if k == 'bits':
         ib = int(cirq.big_endian_bits_to_int(data['bits']))
         bo = [int(x) for x in cirq.big_endian_int_to_bits(data['val'], bit_count=data['bit_count'])]
